@@ -445,6 +445,25 @@ func (l *Lab) compile(units []*Unit, stub bool) error {
 						continue
 					}
 				}
+				// "found packages X (gen.go) and Y (local_funcs.go) in <dir>": the generated file declares another package name
+				// than the configuration says
+				if k := strings.Index(ln, "found packages "); k >= 0 {
+					if d := strings.LastIndex(ln, " in "); d > k {
+						dir := strings.TrimSpace(ln[d+4:])
+						hit := false
+						for path, u := range byPath {
+							if strings.HasSuffix(dir, strings.TrimPrefix(path, "fixt/")) {
+								u.Compiled = false
+								failed[path] = true
+								u.CompileErr += ln + "\n"
+								hit = true
+							}
+						}
+						if hit {
+							continue
+						}
+					}
+				}
 				if cur != nil {
 					if len(cur.CompileErr) < 4000 {
 						cur.CompileErr += ln + "\n"
